@@ -420,3 +420,282 @@ Qed.
 
 Theorem write_keeps_wf : forall c k o i st s, wf st -> wf (wr_store (write c k o i st s)).
 Proof. intros. eapply inv_wf; eauto. apply write_inv. Qed.
+
+(* ---- C09, clause 2: the result of a write does not depend on the writer's instance state -------------------------- *)
+Definition is_span_writer (k : Z) : bool :=
+  ((k =? W_DFXP) || (k =? W_SINGLE) || (k =? W_LEGACY) || (k =? W_SAMI))%Z.
+
+Lemma sami_tokens_last_indep : forall o b l1 l2 langs,
+  fst (fst (sami_tokens o b l1 langs)) = fst (fst (sami_tokens o b l2 langs)) /\
+  snd (sami_tokens o b l1 langs) = snd (sami_tokens o b l2 langs).
+Proof.
+  intros o b l1 l2 langs. destruct langs as [|caps t]; simpl; [split; reflexivity|].
+  destruct (sami_lang_tokens o b TNone caps) as [[o1 l1'] a]. split; reflexivity.
+Qed.
+
+(* what a plan contributes to the effect and to the result *)
+Definition plan_core (p : plan) := (p_slots p, p_err p, p_open p, p_tokens p).
+
+Lemma make_plan_last_indep : forall k o b l1 l2 t,
+  plan_core (make_plan k o b l1 t) = plan_core (make_plan k o b l2 t).
+Proof.
+  intros k o b l1 l2 t. unfold make_plan, plan_core.
+  destruct (k =? W_DFXP)%Z.
+  { destruct (plan_slots o (dfxp_codes (dfxp_langs o t))) as [sl [e|]]; [reflexivity|].
+    destruct (caps_tokens o 4 None b _). reflexivity. }
+  destruct (k =? W_SINGLE)%Z.
+  { destruct (plan_slots o _) as [sl [e|]]; [reflexivity|].
+    destruct (caps_tokens o 4 _ b _). reflexivity. }
+  destruct (k =? W_LEGACY)%Z.
+  { destruct (caps_tokens o 8 None b _). reflexivity. }
+  destruct (k =? W_SAMI)%Z; [|reflexivity].
+  destruct (plan_slots o (sami_codes t)) as [sl e].
+  destruct (tr_code o (tcode (tfield t 3))); [|reflexivity].
+  destruct (sami_langs_before o (set_langs_t t)) as [done fl].
+  destruct (sami_tokens_last_indep o b l1 l2 done) as [A B].
+  destruct (sami_tokens o b l1 done) as [[o1 x1] t1].
+  destruct (sami_tokens o b l2 done) as [[o2 x2] t2]. simpl in A, B. subst. reflexivity.
+Qed.
+
+Lemma plan_core_inj : forall p q, plan_core p = plan_core q ->
+  p_slots p = p_slots q /\ p_err p = p_err q /\ p_open p = p_open q /\ p_tokens p = p_tokens q.
+Proof. intros p q H. unfold plan_core in H. inversion H. auto. Qed.
+
+Lemma entry_inst_span : forall c k i, fix15 c = true -> is_span_writer k = true ->
+  wi_open (entry_inst c k i) = false.
+Proof.
+  intros c k i Hf Hk. unfold entry_inst, is_span_writer in *. rewrite Hf. simpl. rewrite Hk. reflexivity.
+Qed.
+
+(* store effect, result, footprint and copy count of a write are the same whatever the instance state at entry,
+   once open_span is reset at entry (fix15).  `fresh object` = winst0, `used object` = any other state. *)
+Ltac proj_simpl := cbn [wr_store wr_result wr_fp wr_copies wr_inst].
+
+Definition effect (r : wres) := (wr_store r, wr_result r, wr_fp r, wr_copies r).
+
+Lemma write_effect_instance_independent : forall c k o i1 i2 st s,
+  fix15 c = true -> effect (write c k o i1 st s) = effect (write c k o i2 st s).
+Proof.
+  intros c k o i1 i2 st s Hf. unfold write.
+  destruct (((k =? W_VTT)%Z || (k =? W_SCC)%Z) && is_empty_set st s); [reflexivity|].
+  destruct (deepcopy FUEL st s) as [[st1 s1]|]; [|reflexivity].
+  destruct ((k =? W_SRT)%Z || (k =? W_MDVD)%Z || (k =? W_SCC)%Z); [reflexivity|].
+  destruct (k =? W_VTT)%Z; [reflexivity|].
+  destruct (is_span_writer k) eqn:Hs.
+  2:{ unfold is_span_writer in Hs. repeat (apply orb_false_iff in Hs; destruct Hs as [Hs ?]).
+      rewrite Hs, H, H0, H1. reflexivity. }
+  rewrite (entry_inst_span c k i1 Hf Hs), (entry_inst_span c k i2 Hf Hs).
+  destruct (plan_core_inj _ _ (make_plan_last_indep k o false (wi_last (entry_inst c k i1))
+                                 (wi_last (entry_inst c k i2)) (snap FUEL st1 s1))) as (A & B & C & D).
+  cbv zeta. rewrite A, B, D.
+  set (p2 := make_plan k o false (wi_last (entry_inst c k i2)) (snap FUEL st1 s1)) in *.
+  destruct (k =? W_DFXP)%Z.
+  { destruct (apply_slots st1 _ _ []) as [st2 lg]. cbv iota beta.
+    destruct (p_err p2); reflexivity. }
+  destruct (k =? W_SAMI)%Z.
+  { destruct (apply_slots st1 _ _ []) as [st2 lg]. cbv iota beta.
+    destruct (p_err p2); [reflexivity|]. destruct (sami_styles st2 s1 lg). reflexivity. }
+  destruct (k =? W_LEGACY)%Z.
+  { destruct (merge_all st1 s1 []) as [st2 lg]. cbv iota beta.
+    destruct (_ && _); [reflexivity|].
+    destruct (legacy_styles st2 _ lg). reflexivity. }
+  destruct (k =? W_SINGLE)%Z; [|reflexivity].
+  destruct (merge_all st1 s1 []) as [st2 lg]. cbv iota beta.
+  destruct (single_assign st2 s1 _ lg) as [st3 lg3]. cbv iota beta.
+  destruct (deepcopy FUEL st3 s1) as [[st4 s2]|]; [|reflexivity].
+  destruct (apply_slots st4 _ _ lg3) as [st5 lg5]. cbv iota beta.
+  destruct (p_err p2); reflexivity.
+Qed.
+
+(* store effect, result, footprint and copy count of a write are the same whatever the instance state at entry,
+   once open_span is reset at entry (fix15).  `fresh object` = winst0, `used object` = any other state. *)
+Theorem write_instance_independent : forall c k o i1 i2 st s,
+  fix15 c = true ->
+  let r1 := write c k o i1 st s in
+  let r2 := write c k o i2 st s in
+  wr_store r1 = wr_store r2 /\ wr_result r1 = wr_result r2 /\ wr_fp r1 = wr_fp r2 /\ wr_copies r1 = wr_copies r2.
+Proof.
+  intros c k o i1 i2 st s Hf r1 r2.
+  pose proof (write_effect_instance_independent c k o i1 i2 st s Hf) as H.
+  unfold effect in H. fold r1 r2 in H. inversion H. auto.
+Qed.
+
+(* ---- C09, clause 2 (continued): the result is a function of (writer kind, options, snapshot of the set) ----------- *)
+From PV Require Import proofs.DeepcopyFacts.
+
+(* the result of a write as a pure function of the snapshot t of the written set *)
+Definition pure_result (k : Z) (o : wopts) (b : bool) (last : tree) (t : tree) : result out :=
+  if ((k =? W_SRT) || (k =? W_MDVD) || (k =? W_SCC) || (k =? W_VTT))%Z then Ok (mkOut [] t)
+  else if ((k =? W_DFXP) || (k =? W_SAMI) || (k =? W_SINGLE))%Z then
+    let p := make_plan k o b last t in
+    match p_err p with Some e => Err e | None => Ok (mkOut (p_tokens p) t) end
+  else if (k =? W_LEGACY)%Z then
+    if (match wo_lang o with TNone => false | _ => true end) && (match set_langs_t t with [] => true | _ => false end)
+    then Err IndexError
+    else Ok (mkOut (p_tokens (make_plan k o b last t)) t)
+  else Err ENotImplemented.
+
+Definition output_of (k : Z) (o : wopts) (t : tree) : result out := pure_result k o false TNone t.
+
+Lemma pure_result_last_indep : forall k o b l1 l2 t, pure_result k o b l1 t = pure_result k o b l2 t.
+Proof.
+  intros. unfold pure_result.
+  destruct (plan_core_inj _ _ (make_plan_last_indep k o b l1 l2 t)) as (A & B & C & D).
+  cbv zeta. rewrite B, D. reflexivity.
+Qed.
+
+Lemma write_result_pure : forall c k o i st s,
+  wf st -> below (length st) s ->
+  wr_result (write c k o i st s) = Err EOutOfFuel \/
+  wr_result (write c k o i st s)
+  = pure_result k o (wi_open (entry_inst c k i)) (wi_last (entry_inst c k i)) (snap FUEL st s).
+Proof.
+  intros c k o i st s Hwf Hb. unfold write, pure_result.
+  destruct (((k =? W_VTT)%Z || (k =? W_SCC)%Z) && is_empty_set st s) eqn:Ee.
+  { right. proj_simpl. apply andb_true_iff in Ee. destruct Ee as [Ee _]. apply orb_true_iff in Ee.
+    destruct Ee as [Ee|Ee]; rewrite Ee; repeat rewrite orb_true_r; reflexivity. }
+  destruct (deepcopy FUEL st s) as [[st1 s1]|] eqn:Edc; [|left; reflexivity].
+  rewrite (deepcopy_snapshot_eq st FUEL s st1 s1 Hwf Hb Edc FUEL).
+  destruct (k =? W_SRT)%Z eqn:K1; [right; reflexivity|].
+  destruct (k =? W_MDVD)%Z eqn:K3; [right; reflexivity|].
+  destruct (k =? W_SCC)%Z eqn:K6; [right; reflexivity|].
+  destruct (k =? W_VTT)%Z eqn:K2; [right; reflexivity|].
+  cbn [orb].
+  destruct (k =? W_DFXP)%Z eqn:K4.
+  { right. cbn [orb]. cbv zeta. destruct (apply_slots st1 _ _ []). destruct (p_err _); reflexivity. }
+  destruct (k =? W_SAMI)%Z eqn:K5.
+  { right. cbn [orb]. cbv zeta. destruct (apply_slots st1 _ _ []).
+    destruct (p_err _); [reflexivity|]. destruct (sami_styles _ _ _). reflexivity. }
+  destruct (k =? W_LEGACY)%Z eqn:K8.
+  { right. destruct (k =? W_SINGLE)%Z eqn:K7.
+    { exfalso. apply Z.eqb_eq in K7, K8. unfold W_SINGLE, W_LEGACY in *. lia. }
+    cbn [orb]. destruct (merge_all st1 s1 []).
+    match goal with |- context [if ?b then mkWres _ _ (Err IndexError) _ _ else _] => destruct b end;
+      [reflexivity|]. cbv zeta. destruct (legacy_styles _ _ _). reflexivity. }
+  destruct (k =? W_SINGLE)%Z eqn:K7; [|right; reflexivity].
+  cbn [orb]. cbv zeta. destruct (merge_all st1 s1 []). destruct (single_assign _ _ _ _).
+  destruct (deepcopy FUEL _ s1) as [[st4 sc2]|]; [|left; reflexivity].
+  right. destruct (apply_slots st4 _ _ _). destruct (p_err _); reflexivity.
+Qed.
+
+(* Unless the model's deepcopy runs out of fuel, the result of write() is output_of (kind, options, snapshot):
+   nothing else of the store, nothing of the writer object's past *)
+Theorem write_result_function_of_snapshot : forall c k o i st s,
+  fix15 c = true -> wf st -> below (length st) s ->
+  wr_result (write c k o i st s) = Err EOutOfFuel \/
+  wr_result (write c k o i st s) = output_of k o (snap FUEL st s).
+Proof.
+  intros c k o i st s Hf Hwf Hb.
+  destruct (write_result_pure c k o i st s Hwf Hb) as [H|H]; [left; exact H|right].
+  rewrite H. unfold output_of.
+  rewrite (pure_result_last_indep k o _ (wi_last (entry_inst c k i)) TNone).
+  destruct (is_span_writer k) eqn:Hs.
+  - rewrite (entry_inst_span c k i Hf Hs). reflexivity.
+  - unfold is_span_writer in Hs. repeat (apply orb_false_iff in Hs; destruct Hs as [Hs ?]).
+    unfold pure_result. rewrite Hs, H0, H1, H2. cbn [orb].
+    destruct ((k =? W_SRT)%Z || (k =? W_MDVD)%Z || (k =? W_SCC)%Z || (k =? W_VTT)%Z); reflexivity.
+Qed.
+
+Corollary write_same_snapshot_same_result : forall c k o i1 i2 st1 st2 s1 s2,
+  fix15 c = true -> wf st1 -> wf st2 -> below (length st1) s1 -> below (length st2) s2 ->
+  snap FUEL st1 s1 = snap FUEL st2 s2 ->
+  wr_result (write c k o i1 st1 s1) <> Err EOutOfFuel ->
+  wr_result (write c k o i2 st2 s2) <> Err EOutOfFuel ->
+  wr_result (write c k o i1 st1 s1) = wr_result (write c k o i2 st2 s2).
+Proof.
+  intros c k o i1 i2 st1 st2 s1 s2 Hf W1 W2 B1 B2 Hs N1 N2.
+  destruct (write_result_function_of_snapshot c k o i1 st1 s1 Hf W1 B1) as [H1|H1]; [contradiction|].
+  destruct (write_result_function_of_snapshot c k o i2 st2 s2 Hf W2 B2) as [H2|H2]; [contradiction|].
+  rewrite H1, H2, Hs. reflexivity.
+Qed.
+
+(* ---- histories ---------------------------------------------------------------------------------------------------- *)
+Definition is_write (o : op) : bool := match o with OWrite _ _ _ _ => true | _ => false end.
+
+Definition wf_world (w : world) : Prop :=
+  wf (w_st w) /\ Forall (below (length (w_st w))) (w_sets w).
+
+Lemma nth_error_Forall : forall (A : Type) (P : A -> Prop) (l : list A) n x,
+  Forall P l -> nth_error l n = Some x -> P x.
+Proof. intros A P l n x H Hn. rewrite Forall_forall in H. apply H. eapply nth_error_In; eauto. Qed.
+
+(* one write step inside any history: every caption set keeps its snapshot, the world stays well formed *)
+Theorem step_write_preserves : forall c w wid k o si,
+  wf_world w ->
+  let w' := fst (step c w (OWrite wid k o si)) in
+  wf_world w' /\ w_sets w' = w_sets w /\
+  (forall fuel v, below (length (w_st w)) v -> snap fuel (w_st w') v = snap fuel (w_st w) v).
+Proof.
+  intros c w wid k o si [Hwf Hsets]. cbv zeta. unfold step.
+  destruct (nth_error (w_sets w) si) as [s|] eqn:Es.
+  - set (wi := match lookup wid (w_writers w) with Some x => x | None => winst0 end).
+    cbn [fst w_st w_sets].
+    pose proof (write_inv c k o wi (w_st w) s) as Hinv.
+    split; [split|split].
+    + eapply inv_wf; eauto.
+    + eapply Forall_impl; [|exact Hsets]. intros v Hv. eapply below_mono; [exact Hv|]. apply (inv_len _ _ Hinv).
+    + reflexivity.
+    + intros fuel v Hv. apply snap_agree; auto. apply (inv_agree _ _ Hinv).
+  - cbn [fst]. split; [split; assumption|]. split; [reflexivity|]. intros. reflexivity.
+Qed.
+
+(* any history of writes (any writers, any options, shared or fresh writer objects, error exits included) *)
+Theorem writes_preserve_all_sets : forall c ops w,
+  wf_world w -> forallb is_write ops = true ->
+  let w' := run_world c w ops in
+  wf_world w' /\ w_sets w' = w_sets w /\ (length (w_st w) <= length (w_st w'))%nat /\
+  (forall fuel v, below (length (w_st w)) v -> snap fuel (w_st w') v = snap fuel (w_st w) v).
+Proof.
+  intros c ops. induction ops as [|o t IH]; intros w Hw Hall; cbv zeta.
+  - simpl. split; [exact Hw|]. split; [reflexivity|]. split; [lia|]. intros. reflexivity.
+  - simpl in Hall. apply andb_true_iff in Hall. destruct Hall as [Ho Ht].
+    destruct o as [| |wid k o si|]; try discriminate.
+    cbn [run_world].
+    destruct (step_write_preserves c w wid k o si Hw) as (W1 & S1 & P1).
+    set (w1 := fst (step c w (OWrite wid k o si))) in *.
+    assert (L1 : (length (w_st w) <= length (w_st w1))%nat).
+    { unfold w1, step. destruct (nth_error (w_sets w) si); cbn [fst w_st]; [|lia].
+      apply (inv_len _ _ (write_inv _ _ _ _ _ _)). }
+    destruct (IH w1 W1 Ht) as (W2 & S2 & L2 & P2).
+    split; [exact W2|]. split; [congruence|]. split; [lia|].
+    intros fuel v Hv. rewrite P2; [apply P1; exact Hv|]. eapply below_mono; eauto.
+Qed.
+
+Corollary writes_preserve_snapshots : forall c ops w,
+  wf_world w -> forallb is_write ops = true ->
+  forall fuel, map (snap fuel (w_st (run_world c w ops))) (w_sets (run_world c w ops))
+             = map (snap fuel (w_st w)) (w_sets w).
+Proof.
+  intros c ops w Hw Hall fuel.
+  destruct (writes_preserve_all_sets c ops w Hw Hall) as (W & S & L & P). rewrite S.
+  apply map_ext_in. intros v Hv. apply P. destruct Hw as [_ Hs]. rewrite Forall_forall in Hs. auto.
+Qed.
+
+(* output (history ++ [write]) = output [write]: after ANY history of writes, whatever happened to the writer object,
+   the result of writing set s is output_of (kind, options, snapshot of s BEFORE the history) *)
+Theorem write_history_independent : forall c ops w k o wi si s,
+  fix15 c = true -> wf_world w -> forallb is_write ops = true ->
+  nth_error (w_sets w) si = Some s ->
+  let w' := run_world c w ops in
+  wr_result (write c k o wi (w_st w') s) = Err EOutOfFuel \/
+  wr_result (write c k o wi (w_st w') s) = output_of k o (snap FUEL (w_st w) s).
+Proof.
+  intros c ops w k o wi si s Hf Hw Hall Hs. cbv zeta.
+  destruct (writes_preserve_all_sets c ops w Hw Hall) as (W & S & L & P).
+  assert (Hb : below (length (w_st w)) s) by (eapply nth_error_Forall; [exact (proj2 Hw)|exact Hs]).
+  rewrite <- (P FUEL s Hb).
+  apply write_result_function_of_snapshot; auto. exact (proj1 W).
+  eapply below_mono; eauto.
+Qed.
+
+Lemma wf_store0 : wf store0.
+Proof.
+  intros l o H. unfold get, store0 in H.
+  destruct l as [|[|l]]; simpl in H.
+  - inversion H; subst. constructor.
+  - inversion H; subst. constructor.
+  - destruct l; discriminate.
+Qed.
+
+Lemma wf_world0 : wf_world world0.
+Proof. split; [exact wf_store0|constructor]. Qed.
